@@ -19,11 +19,15 @@ pub fn print_child(threads: usize, calls: usize, stream: &str) {
                 let mut r = crate::rng::Rng::new(t as u64 * 7919);
                 for c in 1..=calls {
                     let pad = "x".repeat(r.below(40));
+                    let kind = (c + t) % 7;
+                    // calls that end with a newline of their own (println!, a "\n" in the format string, writeln!, a record ending in
+                    // "\n") announce 4 fragments: the newline right after the third is the fourth and belongs to the same call
+                    let n = if matches!(kind, 0 | 1 | 2 | 4) { 4 } else { 3 };
                     // an escape sequence split across the first two fragments, one inside the third
-                    let a = format!("{}\x1b[3", frag(t, c, 1, 3, &pad));
-                    let b = format!("1m{}", frag(t, c, 2, 3, "\x1b[0mmid"));
-                    let d = frag(t, c, 3, 3, "end\x1b[m");
-                    match (c + t) % 6 {
+                    let a = format!("{}\x1b[3", frag(t, c, 1, n, &pad));
+                    let b = format!("1m{}", frag(t, c, 2, n, "\x1b[0mmid"));
+                    let d = frag(t, c, 3, n, "end\x1b[m");
+                    match kind {
                         0 => {
                             if stream == "stdout" { anstream::println!("{}{}{}", a, b, d) } else { anstream::eprintln!("{}{}{}", a, b, d) }
                         }
@@ -32,6 +36,14 @@ pub fn print_child(threads: usize, calls: usize, stream: &str) {
                         }
                         2 => {
                             if stream == "stdout" { writeln!(anstream::stdout(), "{}{}{}", a, b, d).unwrap() } else { writeln!(anstream::stderr(), "{}{}{}", a, b, d).unwrap() }
+                        }
+                        6 => {
+                            // ONE formatted print of more than 8 KiB in several arguments (longer than any intermediate buffer)
+                            let big1 = "p".repeat(3000 + r.below(2000));
+                            let big2 = "q".repeat(4000 + r.below(2000));
+                            let a = format!("{}\x1b[3", frag(t, c, 1, 3, &big1));
+                            let b = format!("1m{}", frag(t, c, 2, 3, &big2));
+                            if stream == "stdout" { anstream::print!("{}{}{}", a, b, d) } else { anstream::eprint!("{}{}{}", a, b, d) }
                         }
                         3 => {
                             // write_all of one buffer: a line, then a long unterminated tail (longer than std's line buffer)
